@@ -34,6 +34,15 @@ Theorem C20_spec_prefix_bumped : forall levels : list Z,
 Proof. exact spec_is_prefix_bumped. Qed.
 Print Assumptions C20_spec_prefix_bumped.
 
+(* numbering only the listed headings (what fill and the tool do) = numbering the whole document and keeping the listed
+   ones, provided no level is skipped on the way down (otherwise not: levels 1,3,2 with outline 2 give 1.1. vs 1.2.) *)
+Theorem C20_listed_numbering_is_document_numbering : forall (levels : list Z) (prev : list Z) (ol : Z),
+  0 <= ol -> wellnested (length prev) levels = true ->
+  map snd (filter (fun p => fst p <=? ol) (combine levels (outline_numbers prev levels)))
+  = outline_numbers (firstn (Z.to_nat ol) prev) (filter (fun l => l <=? ol) levels).
+Proof. exact filter_commutes. Qed.
+Print Assumptions C20_listed_numbering_is_document_numbering.
+
 (* ---- the entries *)
 Theorem C20_fill_entries : forall (t : toc) (hs : list heading), in_domain hs ->
   let ol := eff_outline (toutline t) in
